@@ -33,7 +33,7 @@ theorem stepOK_of {bb : Option Name} {P : List Obj} {w1 : World} {a : Oid} {op :
     StepOK bb P w1 (recOf w1 a op vs cs res) := by
   have hc : (recOf w1 a op vs cs res).crash = false := crashes_false hinv.uid M
   have := snapshot_clauses (P := P) (S := w1.objs) (r := recOf w1 a op vs cs res) rfl hc hinv.uid H M
-  exact ⟨hinv, rfl, hc, this.1, this.2.1, this.2.2, hcre, hno, hex, hask⟩
+  exact ⟨hinv, rfl, hc, this.1, this.2.1, this.2.2, hcre, hno, hex, hask, rfl⟩
 
 /-- a step that changes no registered object and creates nothing -/
 theorem stepOK_same {bb : Option Name} {w : World} (hw : Inv w) (w1 : World) (hobjs : w1.objs = w.objs)
@@ -175,7 +175,8 @@ theorem guard_or {A : Obj} (h : ¬ (A.oid ≠ masterOid ∧ A.euid = none)) : A.
   · exact Or.inr (fun hy => h ⟨hx, hy⟩)
 
 theorem dest_ok {cfg : Cfg} {w : World} (hw : Inv w) {a : Oid} {A : Obj} (hA : getO w.objs a = some A)
-    (t : Oid) : StepOK cfg.bb w.objs (doDest cfg w A t).1 (recOfR a (.dest t) (doDest cfg w A t)) := by
+    (rootNow : Name) (t : Oid) :
+    StepOK cfg.bb w.objs (doDest cfg rootNow w A t).1 (recOfR a (.dest t) (doDest cfg rootNow w A t)) := by
   have hAo := (getO_some hA).2
   subst hAo
   unfold doDest recOfR
@@ -189,6 +190,13 @@ theorem dest_ok {cfg : Cfg} {w : World} (hw : Inv w) {a : Oid} {A : Obj} (hA : g
     have hTo := (getO_some hT).2
     by_cases hm : t = masterOid
     · simp only [hm, if_true]
+      by_cases hnr : cfg.noRoot = true
+      · rw [if_pos hnr]
+        apply stepOK_same hw w rfl
+        · exact noEuid_of_all (by simp [recOf]) rfl
+        · simp [exportClause, recOf]
+        · simp [askedClause, recOf]
+      rw [if_neg hnr]
       by_cases hguard : A.oid ≠ masterOid ∧ A.euid = none
       · rw [if_pos hguard]
         apply stepOK_same hw w rfl
@@ -203,7 +211,7 @@ theorem dest_ok {cfg : Cfg} {w : World} (hw : Inv w) {a : Oid} {A : Obj} (hA : g
             | none => exact absurd h hg
             | some _ => simp
         apply stepOK_of
-        · exact Inv_setO hw { T with uid := some cfg.root, euid := some cfg.root } (by simp) _ rfl
+        · exact Inv_setO hw { T with uid := some rootNow, euid := some rootNow } (by simp) _ rfl
         · intro e hmem
           rcases frame_setO hw.wf hmem with h | h
           · refine Or.inr (Or.inl ?_)
@@ -220,6 +228,13 @@ theorem dest_ok {cfg : Cfg} {w : World} (hw : Inv w) {a : Oid} {A : Obj} (hA : g
         · simp [exportClause, recOf]
         · simp [askedClause, recOf]
     · simp only [hm, if_false]
+      by_cases hse : t = simulOid
+      · rw [if_pos hse]
+        apply stepOK_same hw w rfl
+        · exact noEuid_of_all (by simp [recOf]) rfl
+        · simp [exportClause, recOf]
+        · simp [askedClause, recOf]
+      rw [if_neg hse]
       apply stepOK_of
       · constructor
         · exact WF_delO hw.wf t
